@@ -107,3 +107,17 @@ Theorem C04_CDw_half_refuted :
     <> wave_CDw (2 * np) false M CL widths lsp chords toc true true.
 Proof. exact CDw_half_refuted. Qed.
 Print Assumptions C04_CDw_half_refuted.
+
+(* structure: the equilibrium rows of the modelled (left) half of a full-span beam clamped at its centre node are, entry for
+   entry, the rows of the half-span beam clamped at its last node - for any number of elements, any element matrices,
+   whatever lies to the right of the centre *)
+From OAS Require Import Beam BeamCantilever.
+Theorem C04_structure_left_half_rows_of_full_model_are_the_half_model_rows :
+  forall (ne nf : nat) (kh kf : nat -> nat -> nat -> R) (uh uf : nat -> R), (ne <= nf)%nat ->
+    (forall e p q, (e < ne)%nat -> kf e p q = kh e p q) ->
+    (forall q, (q < 6 * S ne)%nat -> uf q = uh q) ->
+    forall a r, (a < ne)%nat -> (r < 6)%nat ->
+    rsum (6 * S nf) (fun q => assembled nf kf a r (q / 6) (q mod 6) * uf q)
+    = rsum (6 * S ne) (fun q => assembled ne kh a r (q / 6) (q mod 6) * uh q).
+Proof. exact full_left_rows_are_half_rows. Qed.
+Print Assumptions C04_structure_left_half_rows_of_full_model_are_the_half_model_rows.
